@@ -63,6 +63,7 @@ class Extract:
         self.no_attrs = False
         self.keep_derives = None
         self.ghost_items = []
+        self.contract_only = False   # T8: keep signature + contract, drop the body (callee stub)
 
 
 class Block:
@@ -74,7 +75,7 @@ class Block:
         self.gen = None
 
 
-def parse_unit(path, _depth=0):
+def parse_unit(path, _depth=0, contract_only=False):
     blocks = []
     cur = None
     ext = None
@@ -98,7 +99,7 @@ def parse_unit(path, _depth=0):
                 inc = os.path.join(os.path.dirname(path), toks.split()[1])
                 if _depth > 4:
                     raise UnitError('include too deep')
-                _m, inc_blocks = parse_unit(inc, _depth + 1)
+                _m, inc_blocks = parse_unit(inc, _depth + 1, contract_only or toks.split()[0] == 'include-contracts')
                 for ib in inc_blocks:
                     ib.src_file = getattr(ib, 'src_file', None) or os.path.basename(inc)
                 blocks.extend(inc_blocks)
@@ -117,6 +118,7 @@ def parse_unit(path, _depth=0):
                     raise UnitError('%s:%d: extract needs <file> :: <anchor>' % (path, ln))
                 cur = Block('extract', ln)
                 ext = Extract(parts[0], parts[1], ln)
+                ext.contract_only = contract_only
                 ann = ext.top
                 cur.extract = ext
                 blocks.append(cur)
@@ -162,6 +164,10 @@ def parse_unit(path, _depth=0):
                 sink = ext.ghost_items
             elif key == 'noattrs':
                 ext.no_attrs = True
+            elif key == 'contract-only':
+                ext.contract_only = True
+            elif key == 'verify-body':
+                ext.contract_only = False
             elif key == 'fn':
                 ann = ext.fns.setdefault(rest, FnAnn(rest))
             elif key == 'result':
@@ -184,7 +190,7 @@ def parse_unit(path, _depth=0):
             else:
                 raise UnitError('%s:%d: unknown annotation %s' % (path, ln, line))
             continue
-        if line.strip() == '' or line.lstrip().startswith('#!'):
+        if line.strip() == '' or line.lstrip().startswith('#!') or line.startswith('# '):
             continue
         if sink is None:
             raise UnitError('%s:%d: stray line in extract block: %r' % (path, ln, line))
@@ -434,6 +440,14 @@ def build_item(repo, ext, unit_path):
     else:
         scopes = []
     inserted = []
+    t8_fns = set()
+    t8_spans = []
+    if ext.contract_only and is_container:
+        # every method of the impl becomes a stub, annotated or not
+        have = set(a.name for a, _ in scopes)
+        for nm, sp in fn_spans.items():
+            if nm not in have and nm not in omitted:
+                scopes.append((FnAnn(nm), sp))
     if is_container and ext.ghost_items:
         inserted.append(('T7', None, [l.strip() for _, l in ext.ghost_items]))
     for ann, (ks, fs, fe, parts) in scopes:
@@ -456,7 +470,15 @@ def build_item(repo, ext, unit_path):
             spec_txt = '\n' + '\n'.join(ind + '    ' + l.strip() for _, l in ann.spec) + '\n' + ind
             edits.append((p2, p2, spec_txt.rstrip(' \t')))
             inserted.append(('T4', ann.name, [l.strip() for _, l in ann.spec]))
-        if parts['has_body']:
+        if parts['has_body'] and ext.contract_only:
+            bs = parts['end_sig']
+            be = match_close(text, code, bs)
+            edits.append((ks, ks, '#[verifier::external_body] /* CONTRACT-ONLY (T8): body verified in its own unit */ '))
+            edits.append((bs + 1, be, ' unimplemented!() '))
+            inserted.append(('T8', ann.name))
+            t8_fns.add(ann.name or ext.anchor.split()[1])
+            t8_spans.append((origin[bs], origin[be]))
+        elif parts['has_body']:
             bs = parts['end_sig']
             be = match_close(text, code, bs)
             loops = find_loops(text, code, bs + 1, be)
@@ -549,6 +571,9 @@ def build_item(repo, ext, unit_path):
             continue
         if _only_attrs_and_docs(ds):
             drop_report.append({'rule': 'T1', 'line': src.line_of(a_), 'text': ds[:80]})
+            continue
+        if t8_fns and any(a_ >= sp_[0] and b_ <= sp_[1] for sp_ in t8_spans):
+            drop_report.append({'rule': 'T8', 'line': src.line_of(a_), 'text': 'body of contract-only fn'})
             continue
         m = re.search(r'fn\s+([A-Za-z_][A-Za-z0-9_]*)', d)
         if m and m.group(1) in t6_methods:
